@@ -58,10 +58,16 @@ func (u *Unit) typeName(t types.Type) string {
 
 func (u *Unit) invoke(st *State, instr ssa.Instruction, cc *ssa.CallCommon, callee Value, args []Value, mode string) []callRes {
 	sig := cc.Signature()
+	u.curInstr = instr
+	defer func() { u.curInstr = nil }()
 	if cc.IsInvoke() {
 		name := u.typeName(cc.Value.Type()) + "." + cc.Method.Name()
 		recv := u.lower(st, callee, cc.Value.Type())
-		u.addOblig(st, "nopanic.nilinvoke", "", nil, Neq(app(SInt, "ity", recv), IntLit(0)), instr, "implicit: method call on non-nil interface ("+name+")")
+		if recv.Sort == SIface {
+			u.addOblig(st, "nopanic.nilinvoke", "", nil, Neq(app(SInt, "ity", recv), IntLit(0)), instr, "implicit: method call on non-nil interface ("+name+")")
+		} else {
+			u.addOblig(st, "nopanic.nilinvoke", "", nil, Neq(recv, IntLit(0)), instr, "implicit: method call on non-nil interface ("+name+")")
+		}
 		if r, ok := u.stubMethod(st, instr, name, recv, args, sig); ok {
 			u.event(st, name, append([]Value{recv}, args...))
 			return r
@@ -70,8 +76,9 @@ func (u *Unit) invoke(st *State, instr ssa.Instruction, cc *ssa.CallCommon, call
 		if fs == nil {
 			return u.unknownCall(st, instr, name, sig)
 		}
-		u.event(st, name, append([]Value{recv}, args...))
-		return u.contractCall(st, instr, fs, name, append([]Value{recv}, args...), sig, true)
+		u.checkAt(st, instr, "call:"+aliasOr(fs, name))
+		evs := u.event(st, aliasOr(fs, name), append([]Value{recv}, args...))
+		return u.recordRes(evs, u.contractCall(st, instr, fs, name, append([]Value{recv}, args...), sig, true))
 	}
 	switch c := callee.(type) {
 	case *ssa.Builtin:
@@ -103,7 +110,8 @@ func (u *Unit) invoke(st *State, instr ssa.Instruction, cc *ssa.CallCommon, call
 		if fs == nil {
 			return u.unknownCall(st, instr, name, sig)
 		}
-		u.event(st, name, args)
+		u.checkAt(st, instr, "call:"+name)
+		evs := u.event(st, name, args)
 		if fs.Inline {
 			target := fn
 			if o := fn.Origin(); o != nil {
@@ -111,7 +119,7 @@ func (u *Unit) invoke(st *State, instr ssa.Instruction, cc *ssa.CallCommon, call
 			}
 			return u.inline(st, target, args, nil)
 		}
-		return u.contractCall(st, instr, fs, name, args, sig, false)
+		return u.recordRes(evs, u.contractCall(st, instr, fs, name, args, sig, false))
 	case T:
 		// dynamic call of a function value: callback contract by static type
 		name := u.typeName(cc.Value.Type())
@@ -120,8 +128,9 @@ func (u *Unit) invoke(st *State, instr ssa.Instruction, cc *ssa.CallCommon, call
 		if fs == nil {
 			return u.unknownCall(st, instr, "callback "+name, sig)
 		}
-		u.event(st, name, append([]Value{c}, args...))
-		return u.contractCall(st, instr, fs, name, append([]Value{c}, args...), sig, true)
+		u.checkAt(st, instr, "call:"+aliasOr(fs, name))
+		evs := u.event(st, aliasOr(fs, name), append([]Value{c}, args...))
+		return u.recordRes(evs, u.contractCall(st, instr, fs, name, append([]Value{c}, args...), sig, true))
 	}
 	u.unsupportedf("call of %T", callee)
 	return u.unknownCall(st, instr, "?", sig)
@@ -224,6 +233,10 @@ func (u *Unit) contractCall(st *State, instr ssa.Instruction, fs *FuncSpec, name
 			u.havocAll(st, name)
 		}
 	default:
+		if strings.HasPrefix(fs.Effect, "fields ") {
+			u.havocFields(st, fs, env)
+			break
+		}
 		u.unsupportedf("unknown effect %q in contract of %s", fs.Effect, name)
 		u.havocAll(st, name)
 	}
@@ -289,7 +302,11 @@ func clauseProps(c *Clause, fs *FuncSpec) []string {
 // havocAll models a re-entrant callback or unknown code: every heap is
 // replaced by a fresh one, except (a) field heaps declared immutable, and
 // (b) locations of objects that are private to this activation.
-func (u *Unit) havocAll(st *State, why string) {
+func (u *Unit) havocAll(st *State, why string) { u.havocAllExcept(st, why, nil) }
+
+// havocAllExcept: like havocAll, but heaps in `direct` (written directly by
+// the code being summarised, e.g. a loop body) get no private-object frame.
+func (u *Unit) havocAllExcept(st *State, why string, direct map[string]Sort) {
 	old := st.view()
 	oldHeaps := map[string]T{}
 	for _, n := range u.heapOrder {
@@ -314,7 +331,26 @@ func (u *Unit) havocAll(st *State, why string) {
 		_ = oa
 		u.allocMonotone(st, oa, na)
 	}
-	u.framePrivate(st, oldHeaps, newHeaps)
+	if direct != nil {
+		oh, nh := map[string]T{}, map[string]T{}
+		for n := range newHeaps {
+			if _, isDirect := direct[n]; !isDirect {
+				oh[n], nh[n] = oldHeaps[n], newHeaps[n]
+			}
+		}
+		saved := u.heapOrder
+		var order []string
+		for _, n := range saved {
+			if _, ok := nh[n]; ok {
+				order = append(order, n)
+			}
+		}
+		u.heapOrder = order
+		u.framePrivate(st, oh, nh)
+		u.heapOrder = saved
+	} else {
+		u.framePrivate(st, oldHeaps, newHeaps)
+	}
 	st.trace = append(st.trace, "havoc:"+why)
 }
 
@@ -364,7 +400,9 @@ func (u *Unit) immutableHeap(name string) bool {
 }
 
 // havocNames havocs the listed heaps (with the private frame).
-func (u *Unit) havocNames(st *State, names []string, why string) {
+func (u *Unit) havocNames(st *State, names []string, why string) { u.havocNamesFrame(st, names, why, true) }
+
+func (u *Unit) havocNamesFrame(st *State, names []string, why string, frame bool) {
 	oldHeaps := map[string]T{}
 	newHeaps := map[string]T{}
 	for _, n := range names {
@@ -383,10 +421,12 @@ func (u *Unit) havocNames(st *State, names []string, why string) {
 			st.assume(Select(newHeaps["alloc"], p.ref))
 		}
 	}
-	saved := u.heapOrder
-	u.heapOrder = names
-	u.framePrivate(st, oldHeaps, newHeaps)
-	u.heapOrder = saved
+	if frame {
+		saved := u.heapOrder
+		u.heapOrder = names
+		u.framePrivate(st, oldHeaps, newHeaps)
+		u.heapOrder = saved
+	}
 	st.trace = append(st.trace, "havoc:"+why)
 }
 
@@ -409,9 +449,55 @@ func (u *Unit) havocModset(st *State, callee string) {
 
 // ------------------------------------------------------------- events
 
-func (u *Unit) event(st *State, name string, args []Value) {
+func aliasOr(fs *FuncSpec, name string) string {
+	if fs.Alias != "" {
+		return fs.Alias
+	}
+	return name
+}
+
+// recordRes remembers the result of the last call of each matched event.
+func (u *Unit) recordRes(evs []string, rs []callRes) []callRes {
+	for _, r := range rs {
+		if r.panicked {
+			continue
+		}
+		for _, ev := range evs {
+			r.st.lastRes[ev] = r.val
+		}
+	}
+	return rs
+}
+
+// checkAt evaluates `at MARK assert` clauses of the current function.
+func (u *Unit) checkAt(st *State, instr ssa.Instruction, mark string) {
+	fs := u.specOfFrame(st)
+	if fs == nil {
+		return
+	}
+	sited := ""
+	if instr != nil {
+		sited = fmt.Sprintf("%s#%d", mark, u.siteOrdinal(instr))
+	}
+	for _, c := range fs.Asserts {
+		if c.Mark != mark && c.Mark != sited {
+			continue
+		}
+		env := u.newEnv(st)
+		g := u.evalBool(env, c.Expr)
+		u.addOblig(st, "at."+labelOr(c, "assert"), c.Text, c.Props, g, instr, "at "+mark+": "+c.Text)
+		st.assume(g)
+	}
+}
+
+func (u *Unit) event(st *State, name string, args []Value) []string {
+	var matched []string
+	sited := ""
+	if u.curInstr != nil {
+		sited = fmt.Sprintf("%s#%d", name, u.siteOrdinal(u.curInstr))
+	}
 	for _, ev := range u.eng.spec.Events {
-		if !eventMatches(ev.Pattern, name) {
+		if !eventMatches(ev.Pattern, name) && !(sited != "" && ev.Pattern == sited) {
 			continue
 		}
 		if ev.Key != nil {
@@ -435,8 +521,9 @@ func (u *Unit) event(st *State, name string, args []Value) {
 		}
 		st.cnt[cn] = Add(cur, IntLit(1))
 		st.lastArgs[ev.Name] = args
-		st.marks["before:"+ev.Name] = nil
+		matched = append(matched, ev.Name)
 	}
+	return matched
 }
 
 func (u *Unit) counterInit(name string, sort Sort) T {
@@ -506,7 +593,7 @@ func (u *Unit) builtin(st *State, instr ssa.Instruction, b *ssa.Builtin, cc *ssa
 				pv = u.fresh("panicval", SIface)
 				st.assume(Neq(app(SInt, "ity", pv), IntLit(0)))
 			}
-			st.cnt["recovered"] = IntLit(1)
+			st.cnt["flag!recovered"] = True
 			return one(st, pv)
 		}
 		return one(st, T{"nil_iface", SIface})
@@ -575,11 +662,22 @@ func (u *Unit) appendOp(st *State, instr ssa.Instruction, cc *ssa.CallCommon, ar
 	freshArr := u.fresh("arr.append", SInt)
 	al := u.heapGet(st.view(), "alloc", ArrSort(SInt, SBool))
 	st.assume(Implies(Not(fits), And(Not(Select(al, freshArr)), Lt(IntLit(0), freshArr))))
+	st.private = append(st.private, privRef{freshArr, "arr:" + string(es)})
 	u.heapSet(st, "alloc", Ite(fits, al, Store(al, freshArr, True)))
 	newCap := u.fresh("cap.append", SInt)
 	st.assume(Le(newLen, newCap))
-	resArr := Ite(fits, sarr, freshArr)
-	resOff := Ite(fits, soff, IntLit(0))
+	name := func(t T, hint string) T {
+		if !strings.HasPrefix(t.S, "(") {
+			return t
+		}
+		c := u.fresh(hint, t.Sort)
+		st.assume(Eq(c, t))
+		return c
+	}
+	slen, soff, sarr = name(slen, "app.len"), name(soff, "app.off"), name(sarr, "app.arr")
+	newLen = name(Add(slen, n), "app.newlen")
+	resArr := name(Ite(fits, sarr, freshArr), "app.resarr")
+	resOff := name(Ite(fits, soff, IntLit(0)), "app.resoff")
 	resCap := Ite(fits, scap, newCap)
 	res := app(SSlice, "mk_slice", resArr, resOff, newLen, resCap)
 
@@ -598,24 +696,24 @@ func (u *Unit) appendOp(st *State, instr ssa.Instruction, cc *ssa.CallCommon, ar
 		u.heapSet(st, hn, Ite(fits, Store(h, sarr, ri), Store(h, freshArr, rf)))
 		return res
 	}
-	// general case: new heap described by a quantified frame
+	// general case: new heap described by quantified facts over selem
 	h2 := u.fresh(hn+"@append", hs)
-	row2 := Select(h2, resArr)
-	rowOld := Select(h, sarr)
+	resC := name(res, "app.res")
+	sC := name(s, "app.s")
 	q := fmt.Sprintf("(forall ((a!q Int)) (! (=> (not (= a!q %s)) (= (select %s a!q) (select %s a!q))) :pattern ((select %s a!q))))", resArr.S, h2.S, h.S, h2.S)
 	st.assume(T{q, SBool})
-	// prefix preserved (relative to result offset), appended elements copied,
-	// everything else in an in-place row unchanged.
-	q2 := fmt.Sprintf("(forall ((i!q Int)) (! (=> (and (<= 0 i!q) (< i!q %s)) (= (select %s (+ %s i!q)) (select %s (+ %s i!q)))) :pattern ((select %s (+ %s i!q)))))",
-		slen.S, row2.S, resOff.S, rowOld.S, soff.S, row2.S, resOff.S)
+	iq := T{"i!q", SInt}
+	t2C := name(u.lower(st, args[1], cc.Args[1].Type()), "app.t")
+	q2 := fmt.Sprintf("(forall ((i!q Int)) (! (=> (and (<= 0 i!q) (< i!q %s)) (= %s (ite (< i!q %s) %s %s))) :pattern (%s)))",
+		newLen.S, u.selem(h2, resC, iq).S, slen.S, u.selem(h, sC, iq).S, u.selem(h, t2C, Sub(iq, slen)).S, u.selem(h2, resC, iq).S)
 	st.assume(T{q2, SBool})
-	jq := T{"j!q", SInt}
-	q3 := fmt.Sprintf("(forall ((j!q Int)) (! (=> (and (<= 0 j!q) (< j!q %s)) (= (select %s (+ %s %s j!q)) %s)) :pattern ((select %s (+ %s %s j!q)))))",
-		n.S, row2.S, resOff.S, slen.S, elemAt(jq).S, row2.S, resOff.S, slen.S)
-	st.assume(T{q3, SBool})
+	_ = elemAt
+	row2 := Select(h2, resArr)
+	rowOld := Select(h, sarr)
 	q4 := fmt.Sprintf("(=> %s (forall ((i!q Int)) (! (=> (or (< i!q %s) (>= i!q (+ %s %s))) (= (select %s i!q) (select %s i!q))) :pattern ((select %s i!q)))))",
 		fits.S, soff.S, soff.S, newLen.S, row2.S, rowOld.S, row2.S)
 	st.assume(T{q4, SBool})
+	res = resC
 	u.heapSet(st, hn, h2)
 	return res
 }
@@ -636,11 +734,21 @@ func (u *Unit) copyOp(st *State, instr ssa.Instruction, cc *ssa.CallCommon, args
 	h := u.heapGet(st.view(), hn, hs)
 	n := Ite(Le(app(SInt, "slen", d), app(SInt, "slen", s)), app(SInt, "slen", d), app(SInt, "slen", s))
 	h2 := u.fresh(hn+"@copy", hs)
+	nm := func(t T, hint string) T {
+		if !strings.HasPrefix(t.S, "(") {
+			return t
+		}
+		c := u.fresh(hint, t.Sort)
+		st.assume(Eq(c, t))
+		return c
+	}
+	d, s = nm(d, "copy.dst"), nm(s, "copy.src")
+	n = nm(n, "copy.n")
 	darr, doff := app(SInt, "sarr", d), app(SInt, "soff", d)
-	sarr, soff := app(SInt, "sarr", s), app(SInt, "soff", s)
 	st.assume(T{fmt.Sprintf("(forall ((a!q Int)) (! (=> (not (= a!q %s)) (= (select %s a!q) (select %s a!q))) :pattern ((select %s a!q))))", darr.S, h2.S, h.S, h2.S), SBool})
-	st.assume(T{fmt.Sprintf("(forall ((i!q Int)) (! (=> (and (<= 0 i!q) (< i!q %s)) (= (select (select %s %s) (+ %s i!q)) (select (select %s %s) (+ %s i!q)))) :pattern ((select (select %s %s) (+ %s i!q)))))",
-		n.S, h2.S, darr.S, doff.S, h.S, sarr.S, soff.S, h2.S, darr.S, doff.S), SBool})
+	iq := T{"i!q", SInt}
+	st.assume(T{fmt.Sprintf("(forall ((i!q Int)) (! (=> (and (<= 0 i!q) (< i!q %s)) (= %s %s)) :pattern (%s)))",
+		n.S, u.selem(h2, d, iq).S, u.selem(h, s, iq).S, u.selem(h2, d, iq).S), SBool})
 	st.assume(T{fmt.Sprintf("(forall ((i!q Int)) (! (=> (or (< i!q %s) (>= i!q (+ %s %s))) (= (select (select %s %s) i!q) (select (select %s %s) i!q))) :pattern ((select (select %s %s) i!q))))",
 		doff.S, doff.S, n.S, h2.S, darr.S, h.S, darr.S, h2.S, darr.S), SBool})
 	u.heapSet(st, hn, h2)
@@ -797,7 +905,7 @@ func (u *Unit) ctxCheck(st *State, ctx string) T {
 	}
 	st.assume(Implies(app(SBool, "doneAtEntry", T{ctx, SIface}), d))
 	st.ctxDone[ctx] = d
-	st.cnt["lastctxcheck"] = d
+	st.cnt["flag!lastctxcheck"] = d
 	return d
 }
 
@@ -816,7 +924,7 @@ func (u *Unit) doRecv(st *State, x *ssa.UnOp) Value {
 // one-shot channels: closing asserts the declared invariant (ghost predicate
 // chanInv(ch)), a receive assumes it.
 func (u *Unit) onClose(st *State, instr ssa.Instruction, ch T) {
-	st.cnt["closed:"+ch.S] = IntLit(1)
+	st.cnt["flag!closed:"+ch.S] = True
 }
 
 func (u *Unit) onRecvClosed(st *State, ch T) {
@@ -924,4 +1032,44 @@ func (u *Unit) calleeKey(cc *ssa.CallCommon) string {
 		return relName(c.Fn.(*ssa.Function))
 	}
 	return u.typeName(cc.Value.Type())
+}
+
+// havocFields implements `effect fields PARAM f1 f2 ...`: the callee may
+// assign the listed fields of the object PARAM points to, and nothing else.
+func (u *Unit) havocFields(st *State, fs *FuncSpec, env *SpecEnv) {
+	parts := strings.Fields(fs.Effect)
+	if len(parts) < 2 {
+		return
+	}
+	sv, ok := env.names[parts[1]]
+	if !ok || sv.Typ == nil {
+		u.unsupportedf("effect fields: unknown parameter %s", parts[1])
+		u.havocAll(st, fs.Name)
+		return
+	}
+	pt, ok := sv.Typ.Underlying().(*types.Pointer)
+	if !ok {
+		u.unsupportedf("effect fields: %s is not a pointer", parts[1])
+		return
+	}
+	stt, ok := pt.Elem().Underlying().(*types.Struct)
+	if !ok {
+		return
+	}
+	ref := u.lower(st, sv.V, sv.Typ)
+	for _, f := range parts[2:] {
+		found := false
+		for i := 0; i < stt.NumFields(); i++ {
+			if stt.Field(i).Name() == f {
+				hn, hs, _ := u.fieldHeapName(pt.Elem(), i)
+				h := u.heapGet(st.view(), hn, hs)
+				nv := u.freshOfType(st, "field."+f, stt.Field(i).Type())
+				u.heapSet(st, hn, Store(h, ref, nv))
+				found = true
+			}
+		}
+		if !found {
+			u.unsupportedf("effect fields: no field %s", f)
+		}
+	}
 }
